@@ -237,7 +237,8 @@ EXT2 = {
     'C03': "Round 5: Props/C03Handler - the reader with a SUSPENDED on_msg_coro (data appended while the handler awaits, wake-ups, length-matched appends) refines the "
            "poll model; prefix and completeness for soup and FIX over all such event lists; bursts of 1.2-2 MiB.",
     'C04': "Props/C04Drain: every fully received message is delivered within a bounded number of reader ticks (explicit drain cost, heartbeats cost one tick each, "
-           "callback and pull mode). Props/C04Bytes is unconditional for FIX since /repo 658ee1f (negative BodyLength is a malformed frame).",
+           "callback and pull mode). Props/C04Bytes is unconditional for FIX since /repo 658ee1f (negative BodyLength is a malformed frame). Props/C04AppHead: an application "
+           "dispatcher step delivers exactly the head and keeps the rest of the queue for EVERY callback behaviour, also one that closes at once.",
     'C05': "Round 6: Props/C05Flow and the C05 scenario family on a transport that pauses writing (every close trigger issued while write-paused).",
     'C08': "Round 5: Model/MonitorFlow, Props/C08Flow - pause_writing/resume_writing are erasable from every history (the session never consults them), so the gap "
            "bound and the heartbeat-at-tick characterisation hold under write flow control; FakeTransport models the write buffer's water marks.",
